@@ -15,6 +15,7 @@ C17 check; the reading `edgesOfS` is tied to the real flow's edge list by the C0
 (driver op `export.graph`).
 -/
 import Rpft.Lemmas.ExportGraphSorted
+import Rpft.Props.C17
 set_option linter.unusedSimpArgs false
 set_option linter.unusedVariables false
 namespace Rpft.Props.C04
@@ -420,5 +421,245 @@ theorem export_preserves_graph_stripped (numbered : Bool) (f : FlowX U) (out : L
       simp [edgesOfT] at he
     · obtain ⟨n0, items, vis, sk⟩ := export_skeleton f rows hr hne'
       exact sk.src_mem (sk.edges ▸ he) k hk
+
+/-! ### non-vacuity and negative witnesses (kernel-evaluated)
+
+`exG`: a two-row node, a router with a JOIN (c1, c3 → node 2; c2 and node 2 → node 3), several edges
+between the same nodes (c1, c3), an exit that leads nowhere (c4), a SELF LOOP (c5), a CYCLE back to the
+first node (c6) and an UNREACHABLE node (4). -/
+
+deriving instance DecidableEq for NodeX
+
+def exG : FlowX Nat :=
+  [ ⟨0, "msg.a".toList, [("a1".toList, none), ("a2".toList, some 70)], [([], some 1)]⟩,
+    ⟨1, "split.x".toList, [("w".toList, none)],
+      [("c1".toList, some 2), ("c2".toList, some 3), ("c3".toList, some 2), ("c4".toList, none),
+       ("c5".toList, some 1), ("c6".toList, some 0)]⟩,
+    ⟨2, "msg.b".toList, [("b".toList, none)], [([], some 3)]⟩,
+    ⟨3, "msg.c".toList, [("c".toList, none)], [([], none)]⟩,
+    ⟨4, "msg.z".toList, [("z".toList, none)], [([], some 0)]⟩ ]
+
+def gA : NodeX Nat := ⟨0, "msg.a".toList, [("a1".toList, none), ("a2".toList, some 70)], [([], some 1)]⟩
+def gX : NodeX Nat := ⟨1, "split.x".toList, [("w".toList, none)],
+      [("c1".toList, some 2), ("c2".toList, some 3), ("c3".toList, some 2), ("c4".toList, none),
+       ("c5".toList, some 1), ("c6".toList, some 0)]⟩
+def gZ : NodeX Nat := ⟨4, "msg.z".toList, [("z".toList, none)], [([], some 0)]⟩
+
+/-- the exported temp-id rows of `exG` -/
+def rowsG : List (RowT Nat) := (toRowsT exG).toOption.getD []
+
+theorem rowsG_ok : toRowsT exG = .ok rowsG := by decide +kernel
+
+theorem reach_gA : Reach exG gA := Reach.start rfl
+theorem reach_gX : Reach exG gX := Reach.step (lab := []) (d := 1) reach_gA (by decide) (by decide)
+
+/-- a printable view: (source row | "start", label, target row) with the readable row names -/
+def view (es : List (SEdge (TempId Nat))) : List (Str × Label × Str) :=
+  es.map (fun e => ((e.src.map (·.2)).getD startStr, e.label, e.dst.2))
+
+/-- the graph read from the exported sheet of `exG`: start edge, the chain inside the two-row node, the
+five connected exits of the router (c5 and c6 through `go_to` rows), the join into msg.c — and nothing
+for c4, nothing of the unreachable node -/
+theorem exG_graph : view (edgesOfT rowsG) =
+    [ ("start".toList, [], "msg.a".toList), ("msg.a".toList, [], "msg.a.1".toList),
+      ("msg.a.1".toList, [], "split.x".toList),
+      ("split.x".toList, "c1".toList, "msg.b".toList), ("split.x".toList, "c3".toList, "msg.b".toList),
+      ("split.x".toList, "c2".toList, "msg.c".toList), ("msg.b".toList, [], "msg.c".toList),
+      ("split.x".toList, "c5".toList, "split.x".toList), ("split.x".toList, "c6".toList, "msg.a".toList) ] := by
+  decide +kernel
+
+/-- … and the same graph is read from the FINAL sheet, in both id modes -/
+theorem exG_graph_named : (strippedRows false exG).toOption.map edgesOfS = some
+    [ ⟨none, [], "msg.a".toList⟩, ⟨some "msg.a".toList, [], "msg.a.1".toList⟩,
+      ⟨some "msg.a.1".toList, [], "split.x".toList⟩,
+      ⟨some "split.x".toList, "c1".toList, "msg.b".toList⟩, ⟨some "split.x".toList, "c3".toList, "msg.b".toList⟩,
+      ⟨some "split.x".toList, "c2".toList, "msg.c".toList⟩, ⟨some "msg.b".toList, [], "msg.c".toList⟩,
+      ⟨some "split.x".toList, "c5".toList, "split.x".toList⟩, ⟨some "split.x".toList, "c6".toList, "msg.a".toList⟩ ] := by
+  decide +kernel
+
+theorem exG_graph_numbered : (strippedRows true exG).toOption.map edgesOfS = some
+    [ ⟨none, [], "1".toList⟩, ⟨some "1".toList, [], "2".toList⟩, ⟨some "2".toList, [], "3".toList⟩,
+      ⟨some "3".toList, "c1".toList, "4".toList⟩, ⟨some "3".toList, "c3".toList, "4".toList⟩,
+      ⟨some "3".toList, "c2".toList, "5".toList⟩, ⟨some "4".toList, [], "5".toList⟩,
+      ⟨some "3".toList, "c5".toList, "3".toList⟩, ⟨some "3".toList, "c6".toList, "1".toList⟩ ] := by
+  decide +kernel
+
+/-- non-vacuity of `export_preserves_graph` (2): the node rows, node after node, in order, with content -/
+theorem exG_node_rows : (nodeRowsT rowsG).map (fun x => (x.1.2, x.2.1, x.2.2.2)) =
+    [ ("msg.a".toList, some 0, "a1".toList), ("msg.a.1".toList, some 0, "a2".toList),
+      ("split.x".toList, some 1, "w".toList), ("msg.b".toList, some 2, "b".toList),
+      ("msg.c".toList, some 3, "c".toList) ] := by decide +kernel
+
+/-- instances of the per-node theorems at the router of `exG` (hypotheses are satisfiable) -/
+example : (outOf (lastId gX) (edgesOfT rowsG)).Perm (exitsEdges exG gX) :=
+  out_edges_perm exG rowsG rowsG_ok gX reach_gX
+example : (outOf (lastId gX) (edgesOfT rowsG)).filter (fun e => decide (e.dst = firstId gA)) =
+    (exitsEdges exG gX).filter (fun e => decide (e.dst = firstId gA)) :=
+  out_edges_same_target_order exG rowsG rowsG_ok gX reach_gX _
+example : ∃ A B, nodeRowsT rowsG = A ++ nodeSig gA ++ B ∧
+    nodeSig gA = gA.rows.zipIdx.map (fun x => (rowId gA x.2, some gA.uuid, x.1.2, x.1.1)) ∧ gA.rows ≠ [] :=
+  payloads_preserved exG rowsG rowsG_ok gA reach_gA
+
+/-- (a) the unreachable node of `exG` is a node of the flow, is not reachable, and has no row -/
+theorem exG_unreachable : findNode exG gZ.uuid = some gZ ∧ (∀ r ∈ rowsG, r.nodeId ≠ some gZ.uuid) := by
+  decide +kernel
+
+theorem exG_gZ_not_reach : ¬ Reach exG gZ := by
+  intro h
+  have key : ∀ m, Reach exG m → m.uuid ≠ 4 := by
+    intro m hm
+    induction hm with
+    | start h0 => simp only [exG, List.head?_cons, Option.some.injEq] at h0; subst h0; decide
+    | @step n c lab d _ hmem hfn ih =>
+      have hcu := findNode_uuid hfn
+      have hn : n ∈ exG := findNode_mem (Reach.canon ‹_›)
+      have : ∀ n ∈ exG, n.uuid ≠ 4 → ∀ le ∈ n.edges, le.2 ≠ some 4 := by decide
+      intro h4
+      exact this n hn ih (lab, some d) hmem (by rw [← hcu, h4])
+  exact key gZ h rfl
+
+example : ∀ r ∈ rowsG, r.nodeId ≠ some gZ.uuid :=
+  unreachable_not_exported exG rowsG rowsG_ok gZ (by decide) exG_gZ_not_reach
+
+/-- **F-C04-a, at the model level**: the router of `exG` has six exits, c4 leads nowhere; the sheet has
+five edges leaving it, none labelled c4 — after recompilation the router has no case for c4 (the
+recorded finding: "router categories whose exit leads nowhere are not exported: their tests vanish") -/
+theorem dangling_category_vanishes :
+    gX.edges.map (·.1) = ["c1", "c2", "c3", "c4", "c5", "c6"].map String.toList ∧
+    (outOf (lastId gX) (edgesOfT rowsG)).map (·.label) = ["c1", "c3", "c2", "c5", "c6"].map String.toList := by
+  decide +kernel
+
+example : ∀ e ∈ edgesOfT rowsG, e.src = some (lastId gX) → e.label ≠ "c4".toList :=
+  (export_drops_dangling_exits exG rowsG rowsG_ok gX reach_gX).2 _ (by decide) (by intro d hd; simp [gX] at hd)
+
+/-- **F-C04-b, at the model level** (the recorded finding: "the order of a router's tests changes when a
+test's target is exported later than the target of a following test (joins)"): the minimal flow
+`t1 → x, t2 → y, y → x`.  The DFS walks the exits in reverse, exports `y` (and below it `x`) first, then
+finds `x` completed and prepends `t1` to its row — which stands BELOW the row of `y`: the compiler gets
+the tests back as `t2, t1`. -/
+def exB : FlowX Nat :=
+  [ ⟨0, "split".toList, [("r".toList, none)], [("t1".toList, some 1), ("t2".toList, some 2)]⟩,
+    ⟨1, "msg.x".toList, [("x".toList, none)], [([], none)]⟩,
+    ⟨2, "msg.y".toList, [("y".toList, none)], [([], some 1)]⟩ ]
+def bR : NodeX Nat := ⟨0, "split".toList, [("r".toList, none)], [("t1".toList, some 1), ("t2".toList, some 2)]⟩
+def rowsB : List (RowT Nat) := (toRowsT exB).toOption.getD []
+theorem rowsB_ok : toRowsT exB = .ok rowsB := by decide +kernel
+
+theorem order_changes_at_join :
+    (exitsEdges exB bR).map (·.label) = ["t1".toList, "t2".toList] ∧
+    (outOf (lastId bR) (edgesOfT rowsB)).map (·.label) = ["t2".toList, "t1".toList] ∧
+    rowsB.map (·.id.2) = ["split".toList, "msg.y".toList, "msg.x".toList] ∧
+    -- the trigger, exactly as recorded: the target of t1 stands further down than the target of t2
+    ¬ (exitsEdges exB bR).Pairwise (fun a b => pos (rowsB.map (·.id)) a.dst ≤ pos (rowsB.map (·.id)) b.dst) ∧
+    -- … and in the final sheet, both id modes
+    (strippedRows false exB).toOption.map (fun out => (outOf "split".toList (edgesOfS out)).map (·.label)) =
+      some ["t2".toList, "t1".toList] ∧
+    (strippedRows true exB).toOption.map (fun out => (outOf "1".toList (edgesOfS out)).map (·.label)) =
+      some ["t2".toList, "t1".toList] := by
+  decide +kernel
+
+/-- `order_changes_at_join` is an instance of the exact criterion (no `go_to` row in that sheet) -/
+example : outOf (lastId bR) (edgesOfT rowsB) = exitsEdges exB bR ↔
+    (exitsEdges exB bR).Pairwise (fun a b => pos (rowsB.map (·.id)) a.dst ≤ pos (rowsB.map (·.id)) b.dst) :=
+  out_edges_order_iff_targets_sorted exB rowsB rowsB_ok bR (Reach.start rfl) (by decide +kernel)
+
+/-- the hypothesis of criterion 1 is needed: in `exB` the edge t1 was prepended, and the order changed;
+in `exG` likewise (c1 was prepended to the row of msg.b, c2 to the row of msg.c): c1, c2, c3 come back as
+c1, c3, c2 -/
+theorem needs_not_prepended :
+    (¬ ∀ r ∈ rowsB, ∀ e ∈ r.edges.dropLast, e.from_ ≠ some (lastId bR)) ∧
+    outOf (lastId bR) (edgesOfT rowsB) ≠ exitsEdges exB bR ∧
+    (¬ ∀ r ∈ rowsG, ∀ e ∈ r.edges.dropLast, e.from_ ≠ some (lastId gX)) ∧
+    outOf (lastId gX) (edgesOfT rowsG) ≠ exitsEdges exG gX :=
+  ⟨by decide +kernel, by decide +kernel, by decide +kernel, by decide +kernel⟩
+
+/-- a DIAMOND (join at node 3) whose order IS preserved: both criteria apply to the router although the
+sheet has a row with two edges (so `out_edges_order_of_join_free` does not) -/
+def exD : FlowX Nat :=
+  [ ⟨0, "split".toList, [("r".toList, none)], [("t1".toList, some 1), ("t2".toList, some 2)]⟩,
+    ⟨1, "msg.x".toList, [("x".toList, none)], [([], some 3)]⟩,
+    ⟨2, "msg.y".toList, [("y".toList, none)], [([], some 3)]⟩,
+    ⟨3, "msg.j".toList, [("j".toList, none)], [([], none)]⟩ ]
+def rowsD : List (RowT Nat) := (toRowsT exD).toOption.getD []
+theorem rowsD_ok : toRowsT exD = .ok rowsD := by decide +kernel
+
+theorem diamond_order_preserved :
+    (¬ ∀ r ∈ rowsD, r.edges.length ≤ 1) ∧
+    (∀ r ∈ rowsD, ∀ e ∈ r.edges.dropLast, e.from_ ≠ some (lastId bR)) ∧
+    (∀ r ∈ rowsD, r.goto ≠ [] → ∀ e ∈ r.edges, e.from_ ≠ some (lastId bR)) ∧
+    (exitsEdges exD bR).Pairwise (fun a b => pos (rowsD.map (·.id)) a.dst ≤ pos (rowsD.map (·.id)) b.dst) ∧
+    outOf (lastId bR) (edgesOfT rowsD) = exitsEdges exD bR :=
+  ⟨by decide +kernel, by decide +kernel, by decide +kernel, by decide +kernel, by decide +kernel⟩
+
+example : outOf (lastId bR) (edgesOfT rowsD) = exitsEdges exD bR :=
+  out_edges_order_of_not_prepended exD rowsD rowsD_ok bR (Reach.start rfl) diamond_order_preserved.2.1
+
+/-- criterion 2 is strictly more general than criterion 1 on go_to-free nodes: two tests with the SAME
+target — the first one is prepended (criterion 1 does not apply), the targets are sorted, the order is
+preserved -/
+def exP : FlowX Nat :=
+  [ ⟨0, "split".toList, [("r".toList, none)], [("t1".toList, some 1), ("t2".toList, some 1)]⟩,
+    ⟨1, "msg.x".toList, [("x".toList, none)], [([], none)]⟩ ]
+def pR : NodeX Nat := ⟨0, "split".toList, [("r".toList, none)], [("t1".toList, some 1), ("t2".toList, some 1)]⟩
+def rowsP : List (RowT Nat) := (toRowsT exP).toOption.getD []
+theorem rowsP_ok : toRowsT exP = .ok rowsP := by decide +kernel
+
+theorem same_target_prepended_but_sorted :
+    (¬ ∀ r ∈ rowsP, ∀ e ∈ r.edges.dropLast, e.from_ ≠ some (lastId pR)) ∧
+    (exitsEdges exP pR).Pairwise (fun a b => pos (rowsP.map (·.id)) a.dst ≤ pos (rowsP.map (·.id)) b.dst) ∧
+    outOf (lastId pR) (edgesOfT rowsP) = exitsEdges exP pR := by
+  decide +kernel
+
+/-- the go_to hypothesis of criterion 2 is needed: `t1 → x, t2 → back to the router itself`; the `go_to`
+row that carries t2 stands BELOW the row of x although its target (the router's own row) stands above:
+the order is preserved while the targets are "not sorted" -/
+def exL : FlowX Nat :=
+  [ ⟨0, "split".toList, [("r".toList, none)], [("t1".toList, some 1), ("t2".toList, some 0)]⟩,
+    ⟨1, "msg.x".toList, [("x".toList, none)], [([], none)]⟩ ]
+def lR : NodeX Nat := ⟨0, "split".toList, [("r".toList, none)], [("t1".toList, some 1), ("t2".toList, some 0)]⟩
+def rowsL : List (RowT Nat) := (toRowsT exL).toOption.getD []
+theorem rowsL_ok : toRowsT exL = .ok rowsL := by decide +kernel
+
+theorem needs_no_goto_from_node :
+    (¬ ∀ r ∈ rowsL, r.goto ≠ [] → ∀ e ∈ r.edges, e.from_ ≠ some (lastId lR)) ∧
+    outOf (lastId lR) (edgesOfT rowsL) = exitsEdges exL lR ∧
+    ¬ (exitsEdges exL lR).Pairwise (fun a b => pos (rowsL.map (·.id)) a.dst ≤ pos (rowsL.map (·.id)) b.dst) := by
+  decide +kernel
+
+/-- … that self-loop sheet is join-free: criterion 1 applies (cycles are covered by it) -/
+example : outOf (lastId lR) (edgesOfT rowsL) = exitsEdges exL lR :=
+  out_edges_order_of_join_free exL rowsL rowsL_ok (by decide +kernel) lR (Reach.start rfl)
+
+/-! #### errors -/
+
+/-- a reachable exit names a uuid that is no node of the flow: `find_node` raises -/
+theorem error_noNode_witness :
+    toRowsT ([⟨0, "a".toList, [("r".toList, none)], [([], some 7)]⟩] : FlowX Nat) = .error .noNode ∧
+    strippedRows true ([⟨0, "a".toList, [("r".toList, none)], [([], some 7)]⟩] : FlowX Nat) = .error .noNode := by
+  decide +kernel
+
+/-- a reachable node without row model (a `BasicNode` without actions): IndexError -/
+theorem error_noRows_witness :
+    toRowsT ([⟨0, "a".toList, [], [([], none)]⟩] : FlowX Nat) = .error .noRows := by decide +kernel
+
+/-- defects of UNREACHABLE nodes do not matter: an unreachable node without rows and with an exit to a
+missing node is simply not exported -/
+theorem unreachable_defects_ignored :
+    (toRowsT ([⟨0, "a".toList, [("r".toList, none)], [([], none)]⟩, ⟨1, "b".toList, [], [([], some 9)]⟩] : FlowX Nat)).toOption.map
+      List.length = some 1 := by decide +kernel
+
+/-- the side hypotheses of `export_noNode_iff` / `export_noRows_iff` are needed: with both defects
+reachable, the error reported is the one the reverse walk meets first -/
+theorem needs_rows_for_noNode_iff :
+    toRowsT ([⟨0, "a".toList, [("r".toList, none)], [("l1".toList, some 9), ("l2".toList, some 1)]⟩,
+              ⟨1, "b".toList, [], []⟩] : FlowX Nat) = .error .noRows ∧
+    toRowsT ([⟨0, "a".toList, [("r".toList, none)], [("l1".toList, some 1), ("l2".toList, some 9)]⟩,
+              ⟨1, "b".toList, [], []⟩] : FlowX Nat) = .error .noNode := by
+  decide +kernel
+
+/-- non-vacuity of `export_ok_iff` (←) / `export_preserves_graph_stripped`: `exG` is accepted in both id modes -/
+example : ∃ rows, toRowsT exG = .ok rows := ⟨rowsG, rowsG_ok⟩
+example : ((strippedRows false exG).toOption.map List.length, (strippedRows true exG).toOption.map List.length) = (some 7, some 7) := by
+  decide +kernel
 
 end Rpft.Props.C04
